@@ -131,6 +131,8 @@ def h_fixture(ctx, modname, clsname, variant, role):
         if variant != "textdata":
             raise
         return []            # arbitrary bytes that the class rejects as text / number: not a conversion at all
+    if ent is None:
+        return [("the parser returns an entity for the documented stanza", False)]
     out = ent.toProtocolTreeNode()
     obs = []
     if role == "in":
